@@ -26,10 +26,11 @@ CFG = {
                   "DECSTBM, DECSC, DECRC, ?1049h/l) with every parameter value, the emulator step succeeds and is accepted by the reference "
                   "(accept-sets) unless the reference leaves it unconstrained; lifted to all histories from start-up (emu_refines_histories, "
                   "emu_refines_from_start). Witness/F21,F22,F54,F106a-c prove the statement was false before the repairs.",
-    "level_note": "Proved for all states/parameters/histories: every operation of the vocabulary except SGR. SGR: the pen interpretation is "
-                  "compared by the oracle on the implementation only (C18 proves it for its own model of sgr.go); statement kept as "
-                  "emu_refines_term_full. Restrictions: grapheme string non-empty (the parser never emits an empty one); parameters with "
-                  "sub-parameters / more than two parameters are outside tokOf. Model tied to the source by Gen/TermModes.lean (dispatch through "
+    "level_note": "Proved for all states/parameters/histories: every operation of the vocabulary, SGR included (emu_refines_term_all, "
+                  "emu_refines_histories_all, emu_refines_from_start_all; sgr_refines_spec: on every well-formed SGR sequence the emulator's pen "
+                  "abstracts to Spec.sgr). Restrictions: grapheme string non-empty (the parser never emits an empty one); non-SGR parameters with "
+                  "sub-parameters / more than two parameters are outside tokOf; SGR 6, 21, values > 255 and four malformed SGR shapes (notes/C06.md "
+                  "D1-D4) are terminal specific and outside the judged vocabulary. Model tied to the source by Gen/TermModes.lean (dispatch through "
                   "the regenerated tables) and by the C05 correspondence stream (snapshot after every op, incl. a slice of the C06 sequences); "
                   "the reference is additionally evaluated as oracle on the IMPLEMENTATION after every op of the bounded-exhaustive and random "
                   "histories (driver C06, independent of the transcribed functions). Spec adjustments vs Appendix A (accept-sets added): DECRC "
